@@ -1,10 +1,10 @@
 (* Extract_ren.v -- extraction of the ren.c / dir.c / shaping models to OCaml (ExtrOcamlBasic only). *)
 From Coq Require Import List NArith ZArith Extraction ExtrOcamlBasic.
-From NV Require Import Bytes UcDefs GenUcTables GenConf GenConsts DirDefs RenDefs ShapeDefs.
+From NV Require Import Bytes UcDefs GenUcTables GenConf GenConsts DirDefs RenDefs RenOrdDefs ShapeDefs.
 Definition all_types : nat * N * Z := (0%nat, 0%N, 0%Z).
 Extraction "ren_model.ml" all_types uc_chop uc_slen uc_code uc_cput
   tfind find_b mem uc_isdw uc_iszw uc_wid uc_isbell uc_iscomb uc_acomb ren_placeholder ren_cwid
-  ren_position ren_wid pos_next pos_prev ren_pos ren_off ren_cursor ren_noeol ren_next chr_at
+  ren_position ren_order ren_wid pos_next pos_prev ren_pos ren_off ren_cursor ren_noeol ren_next chr_at
   dir_reverse dir_fix dir_match dir_context dir_reorder dr_of raw_of matcher_ok
   find_achar_o find_achar lookup_achar can_join uc_cshape uc_r2l uc_shape ren_translate
   dwchars zwchars bchars achars dirmarks pat_nullable class_bounds.
